@@ -22,6 +22,7 @@
    harness/props/C07.py.  Hence the suffix _partial on the statements that are weaker than the
    property. *)
 From PyDcop Require Import Base Net M_Mgm M_Dsa M_Mgm2 P_Mgm P_Dsa P_Mgm2 P_Mgm3 P_Mgm3c P_Mgm3b P_Dsa3.
+From PyDcop Require M_Mgm2x P_Mgm2x P_Mgm2y P_Mgm2z.
 
 (* MGM, every schedule: the handlers never process a postponed list re-entrantly (no EvErr event
    at all: the model has no other error branch), and every started computation has an empty
@@ -174,6 +175,128 @@ Theorem dsa_no_deadlock : forall d stop variant prob fovc orc, 0 <= stop -> fora
   (forall x, nbrs d x <> [] -> w_running (nodes cf x) = true) ->
   (exists x, nbrs d x <> [] /\ ds_stopped (w_st (nodes cf x)) = false) -> ~ (forall a b, chan cf a b = []).
 Proof. exact dsa_no_deadlock_l. Qed.
+
+(* ------------------------------------------------------------------ deepening 2, MGM2 (P_Mgm2x/y/s*/f/z.v)
+   Mgm2Computation, five phases (value, offer, answer?, gain, go?), every DCOP, threshold, favor mode,
+   oracle, EVERY schedule.  The statements are about [M_Mgm2x.mgm2_proto_f fuel]: the protocol of M_Mgm2
+   with the fuel of the nested handler -> _enter_state -> handler recursion as a parameter (the real code
+   has none); [M_Mgm2.mgm2_proto], the model compared with the implementation, is the instance fuel = 60
+   (mgm2_run_fuel60), enough when no variable has more than 5 neighbours ([fuel_ok]: 10 * degree + 2).
+   The pending bag of an ordered pair (x, y) is [P_Mgm2z.pend]: pre-start buffer of y ++ channel (x,y) ++
+   the messages of x in the five postponed lists of y.
+   mgm2_barrier_invariant ([P_Mgm2z.InvC], details in P_Mgm2y.v): idle computations are untouched;
+   per computation [good]: state in 1..5, cycle >= 1, finished flag = [stop reached], the three tables
+   duplicate-free, inside the neighbours, complete exactly from the next phase on, flags consistent
+   (offerer has a partner; committed only from state gain on, with a non-zero gain and a partner; state
+   answer? only for offerers, state go? only for committed computations); per ordered pair of neighbours
+   [pairI]: pending values / offers / gains = sent - consumed (cycle counters and table entries), an
+   answer is pending exactly when the receiver is an offerer in state offer/answer? whose partner is the
+   sender and the sender has handled its offers, a go/no-go exactly when the receiver is committed to the
+   sender and the sender has sent it, an offer's flag says whether the sender chose the receiver, an
+   accepting answer comes from a committed non-offerer and carries a non-zero gain, committed partners
+   point at each other; nothing between non-neighbours; the postponed list of the awaited kind is empty
+   at rest and every postponed list holds messages of its own kind only *)
+Theorem mgm2_barrier_invariant : forall d stop thr favor orc fuel, P_Mgm2z.fuel_ok d fuel -> forall cf,
+  reachable (M_Mgm2x.mgm2_proto_f d stop thr favor orc fuel) cf -> P_Mgm2z.InvC d stop orc cf.
+Proof. exact P_Mgm2z.reachable_inv. Qed.
+
+(* phases alternate in step: neighbours are at most one cycle apart, the one ahead waits for values while
+   the other is still in gain / go?; inside a cycle nobody is past "offer" before its neighbour has sent
+   its value, nor in go? before its neighbour has sent its gain *)
+Theorem mgm2_phase_order : forall d stop thr favor orc fuel cf a b, P_Mgm2z.fuel_ok d fuel ->
+  reachable (M_Mgm2x.mgm2_proto_f d stop thr favor orc fuel) cf -> In a (nbrs d b) ->
+  w_running (nodes cf a) = true -> w_running (nodes cf b) = true ->
+  let sa := w_st (nodes cf a) in let sb := w_st (nodes cf b) in
+  t_cycle sa <= t_cycle sb + 1 /\
+  (t_cycle sa = t_cycle sb + 1 -> t_state sa = 1 /\ 4 <= t_state sb) /\
+  (t_cycle sa = t_cycle sb -> (3 <= t_state sa -> 2 <= t_state sb) /\ (t_state sa = 5 -> 4 <= t_state sb)).
+Proof. exact P_Mgm2z.mgm2_phase_order_l. Qed.
+
+(* the partner-only exchanges: an answer can only be pending towards an offerer in state offer/answer?,
+   from its partner, exactly one and none from anybody else; a go/no-go only towards a committed
+   computation, from its partner, exactly one; and conversely an offerer waiting in answer? whose partner
+   has handled its offers HAS its answer pending, a committed computation in go? whose partner has sent
+   its decision HAS it pending (code: offers go to ALL neighbours, with an empty non-offering content for
+   the non-partners; answers go to the offering neighbours only) *)
+Theorem mgm2_partner_handshake : forall d stop thr favor orc fuel, P_Mgm2z.fuel_ok d fuel -> forall cf x y,
+  reachable (M_Mgm2x.mgm2_proto_f d stop thr favor orc fuel) cf ->
+  (forall a v g, In (M2Answer a v g) (P_Mgm2z.pend cf x y) ->
+     t_offerer (P_Mgm2z.st cf y) = true /\ t_partner (P_Mgm2z.st cf y) = Some x /\ 2 <= t_state (P_Mgm2z.st cf y) <= 3 /\
+     P_Mgm2y.cnt 3 (P_Mgm2z.pend cf x y) = 1 /\ (forall z, z <> x -> P_Mgm2y.cnt 3 (P_Mgm2z.pend cf z y) = 0)) /\
+  (forall go, In (M2Go go) (P_Mgm2z.pend cf x y) ->
+     t_committed (P_Mgm2z.st cf y) = true /\ t_partner (P_Mgm2z.st cf y) = Some x /\ 4 <= t_state (P_Mgm2z.st cf y) /\
+     P_Mgm2y.cnt 5 (P_Mgm2z.pend cf x y) = 1 /\ (forall z, z <> x -> P_Mgm2y.cnt 5 (P_Mgm2z.pend cf z y) = 0)) /\
+  (In x (nbrs d y) -> t_state (P_Mgm2z.st cf y) = 3 -> t_partner (P_Mgm2z.st cf y) = Some x -> 3 <= t_state (P_Mgm2z.st cf x) ->
+     P_Mgm2y.cnt 3 (P_Mgm2z.pend cf x y) = 1) /\
+  (In x (nbrs d y) -> t_state (P_Mgm2z.st cf y) = 5 -> t_partner (P_Mgm2z.st cf y) = Some x ->
+     P_Mgm2y.sentGo (P_Mgm2z.st cf) x y -> P_Mgm2y.cnt 5 (P_Mgm2z.pend cf x y) = 1).
+Proof. exact P_Mgm2z.mgm2_partner_handshake_l. Qed.
+
+(* no error event under any schedule: no handler raises (EvErr 1: _handle_response_message never gets an
+   answer from a non-partner or as a non-offerer), the re-dispatch of postponed messages never loops
+   (EvErr 7); finished() carries cycle counter stop_cycle (0 without neighbour), at most once *)
+Theorem mgm2_trace_ok : forall d stop thr favor orc fuel, P_Mgm2z.fuel_ok d fuel -> forall sched, 0 <= stop ->
+  let cf := fst (run (M_Mgm2x.mgm2_proto_f d stop thr favor orc fuel) sched) in
+  let evs := snd (run (M_Mgm2x.mgm2_proto_f d stop thr favor orc fuel) sched) in
+  (forall n k, ~ In (EvErr n k) evs) /\
+  (forall n k, In (EvFinished n k) evs -> k = fin_cycle d stop n) /\
+  (forall x, (count_fin x evs <= 1)%nat /\ Z.of_nat (count_fin x evs) = t_fin (P_Mgm2z.st cf x)).
+Proof. exact P_Mgm2z.mgm2_trace_ok_l. Qed.
+
+(* mgm2_terminates_k (full): k > 0, final configuration with every computation that has a neighbour
+   started and no message in flight => no error, every started computation finished exactly once with
+   cycle counter k (0 without neighbour), waits in state value with empty tables and nothing postponed *)
+Theorem mgm2_terminates_k : forall d stop thr favor orc fuel sched, P_Mgm2z.fuel_ok d fuel -> 0 < stop ->
+  let cf := fst (run (M_Mgm2x.mgm2_proto_f d stop thr favor orc fuel) sched) in
+  let evs := snd (run (M_Mgm2x.mgm2_proto_f d stop thr favor orc fuel) sched) in
+  (forall x, nbrs d x <> [] -> w_running (nodes cf x) = true) -> (forall a b, chan cf a b = []) ->
+  (forall n k, ~ In (EvErr n k) evs) /\
+  (forall x, w_running (nodes cf x) = true ->
+     count_fin x evs = 1%nat /\ (forall k, In (EvFinished x k) evs -> k = fin_cycle d stop x) /\
+     t_cycle (w_st (nodes cf x)) = fin_cycle d stop x /\ t_fin (w_st (nodes cf x)) = 1 /\
+     w_held (nodes cf x) = [] /\
+     (nbrs d x <> [] ->
+        t_state (w_st (nodes cf x)) = 1 /\ t_nv (w_st (nodes cf x)) = [] /\ t_offers (w_st (nodes cf x)) = [] /\
+        t_ng (w_st (nodes cf x)) = [] /\ P_Mgm2z.allposts (w_st (nodes cf x)) = [])).
+Proof. exact P_Mgm2z.mgm2_terminates_k_run_l. Qed.
+
+(* no computation is left waiting (for a value, an offer, the answer of its partner, a gain or the go/no-go
+   of its partner) for a message that will never come *)
+Theorem mgm2_no_deadlock : forall d stop thr favor orc fuel, P_Mgm2z.fuel_ok d fuel -> forall cf,
+  reachable (M_Mgm2x.mgm2_proto_f d stop thr favor orc fuel) cf ->
+  (forall x, nbrs d x <> [] -> P_Mgm2z.rnc cf x = true) ->
+  (exists x, nbrs d x <> [] /\ P_Mgm2x.doneb stop (t_cycle (P_Mgm2z.st cf x)) = false) ->
+  ~ (forall a b, chan cf a b = []).
+Proof. exact P_Mgm2z.mgm2_no_deadlock_l. Qed.
+
+(* the model compared with the real code is the instance fuel = 60, and 60 is enough up to degree 5 *)
+Theorem mgm2_run_fuel60 : forall d stop thr favor orc sched,
+  run (mgm2_proto d stop thr favor orc) sched = run (M_Mgm2x.mgm2_proto_f d stop thr favor orc FUEL) sched.
+Proof. exact P_Mgm2z.mgm2_run_FUEL. Qed.
+
+Theorem mgm2_terminates_k_fuel60 : forall d stop thr favor orc sched,
+  (forall n, (List.length (nbrs d n) <= 5)%nat) -> 0 < stop ->
+  let cf := fst (run (mgm2_proto d stop thr favor orc) sched) in
+  let evs := snd (run (mgm2_proto d stop thr favor orc) sched) in
+  (forall x, nbrs d x <> [] -> w_running (nodes cf x) = true) -> (forall a b, chan cf a b = []) ->
+  (forall n k, ~ In (EvErr n k) evs) /\
+  (forall x, w_running (nodes cf x) = true ->
+     count_fin x evs = 1%nat /\ (forall k, In (EvFinished x k) evs -> k = fin_cycle d stop x) /\
+     t_cycle (w_st (nodes cf x)) = fin_cycle d stop x /\ t_fin (w_st (nodes cf x)) = 1).
+Proof. exact P_Mgm2z.mgm2_terminates_k_FUEL_l. Qed.
+
+(* non-vacuity for MGM2: the two-variable instance of the C03 witness (P_Mgm2.w03_*), stop_cycle 2, complete
+   run with an accepted offer and a coordinated move: both started, degree 1 <= 5, all channels empty at the
+   end, both finished exactly once with cycle counter 2 *)
+Example c07_nonvacuous_mgm2 :
+  let r := run w03_proto w03_sched in
+  map (fun x => w_running (nodes (fst r) x)) [0; 1] = [true; true]
+  /\ map (nbrs w03_d) [0; 1] = [[1]; [0]]
+  /\ chan (fst r) 0 1 = [] /\ chan (fst r) 1 0 = []
+  /\ map (fun x => count_fin x (snd r)) [0; 1] = [1%nat; 1%nat]
+  /\ map (fun x => t_cycle (w_st (nodes (fst r) x))) [0; 1] = [2; 2]
+  /\ existsb (fun e => match e with EvErr _ _ => true | _ => false end) (snd r) = false.
+Proof. vm_compute. repeat split; reflexivity. Qed.
 
 (* non-vacuity: two MGM computations sharing one constraint, stop_cycle = 2, v1 started first and its
    value delivered to v0 before v0 starts (held, then re-injected); the schedule is complete: both
